@@ -135,6 +135,7 @@ def _pairs(rng, n):
     a[3 * k:4 * k] = 0.0                            # exact zeros
     b[4 * k:5 * k] = 0.0
     a[5 * k:5 * k + 3] = 0.0; b[5 * k:5 * k + 3] = 0.0
+    a[5 * k + 3:5 * k + 9] = -0.0; b[5 * k + 6:5 * k + 12] = -0.0          # negative zeros (alone and paired with finite slopes)
     b[6 * k:7 * k] = -a[6 * k:7 * k]                # exactly opposite
     perm = rng.permutation(n)
     return a[perm], b[perm]
